@@ -15,7 +15,6 @@ use fidget_core::vm::{
 };
 use fidget_jit::JitFunction;
 use serde_json::{Value, json};
-use std::collections::HashMap;
 
 pub struct C04;
 
